@@ -41,12 +41,14 @@ def C20_close_awaits_bootstrap_connections : Prop :=
 /-- In the COMPOSED model (client model × one broker-client model per broker client, `Afkak/ClientCompose.lean`):
     when the step of the client's `close()` ends, EVERY broker-client component is closed (those still in
     `self.clients` by this close, those popped by an earlier metadata refresh at the time) - for every reachable
-    composed state in which the client is open, the step not exhausting the fuel.  Needs the client-layer invariant
-    "a broker client that left `clients` has been told to close, or its `closeBc` is still on the action stack"
-    and the agreement of `cache.clients` with the `inClients` flags; not proved yet.  Evaluated on every real
-    full-stack run the composed model is driven with (`x-closed` after each close, harness/lib/client_compose.py).
-    Together with `C20_composed_no_connect_no_write_after_close` it gives: after `close()` NO broker client below
-    ever connects or writes. -/
+    composed state in which the client is open, the step not exhausting the fuel.
+    PROVED (session 5) for every composed run in which no step showed the client layer's `badOp "fuel"`
+    (`C20_composed_close_closes_every_broker_client_partial`, also without the `closing = false` hypothesis).  As
+    written - no fuel proviso on the HISTORY - the statement is false of the fuel-bounded interpreter (a refresh whose
+    callback chain is cut after the popped instances left `self.clients` and before their `closeBc` ran leaves them
+    unclosed for ever; a witness needs more than `fuel` = 100000 actions in one step and cannot be evaluated), so it
+    stays listed here.  Also evaluated on every real full-stack run the composed model is driven with (`x-closed`
+    after each close, harness/lib/client_compose.py). -/
 def C20_composed_close_closes_every_broker_client : Prop :=
   ∀ (cfg : Afkak.ClientCompose.Cfg) (evs : List Afkak.ClientCompose.Ev) (env : Env) (o : Nat),
     let s := Afkak.ClientCompose.run cfg {} evs
